@@ -170,6 +170,31 @@ func (p *Program) VerifyFunc(fc *FuncContract) (res *FuncResult) {
 			resVal = &Val{Typ: f.Signature.Results(), Tup: r.vals}
 		}
 		x.bindResults(pe, f.Signature, resVal)
+		if fc.Pure && !fc.Trusted {
+			// frame: a function declared pure leaves every pre-existing memory cell unchanged
+			var keys []string
+			for k := range r.st.heaps {
+				keys = append(keys, k)
+			}
+			sort.Strings(keys)
+			for _, k := range keys {
+				if strings.HasPrefix(k, "G_") {
+					continue
+				}
+				h1 := r.st.heaps[k]
+				h0 := x.initHeap(k)
+				if h1 == h0 {
+					continue
+				}
+				x.qseq++
+				rv := x.b.BoundVar(fmt.Sprintf("r!f%d", x.qseq), "Int")
+				inner := strings.TrimSuffix(strings.TrimPrefix(x.heapSorts[k], "(Array Int "), ")")
+				body := x.b.Implies(x.b.And(x.b.Cmp("<", x.b.Int(0), rv), x.b.Cmp("<", rv, x.b.Const("alloc0", "Int"))),
+					x.b.Eq(x.b.App("select", inner, h1, rv), x.b.App("select", inner, h0, rv)))
+				x.oblige("frame", fmt.Sprintf("frame(%s)@ret%d", k, ri), r.cond, x.b.Quant("forall", []*smt.Term{rv}, body), r.pos,
+					"declared pure: memory that existed at entry is unchanged ("+k+")", false)
+			}
+		}
 		for i, e := range fc.Ensures {
 			lab := fmt.Sprintf("#%d", i)
 			if e.Label != "" {
